@@ -18,7 +18,7 @@ RULE = ("Case = generated recording (probe metadata with 1..384 channels, or a m
         "operation of the history ALL fault points are enumerated (an I/O error at every chunk index, in the "
         "post-compression verification and at the publishing rename, and a process death (BaseException) before every "
         "compression batch / while the scratch output is open) on a copy of the directory. Oracle: (a) reads through cbin == reads through bin == "
-        "the written data for every (start, stop) within +-2 of every chunk boundary with steps 1..5 and drawn others; "
+        "the written data for every (start, stop) within +-2 of every chunk boundary with steps 1..5, the same ranges walked backwards with steps -1..-5, whole-file reversed strided reads and drawn others; "
         "(b) decompressed bytes SHA-1 == original; (c) bin / cbin / meta entry points give the same shape and values; (d) "
         "after an injected failure no new *.cbin (resp. scratch *.bin) carries the final name, the source bytes are "
         "unchanged and a retry succeeds; in-place variants remove their source only when the replacement verifies; after "
@@ -69,8 +69,8 @@ def _case(draw):
         else:
             o["via"] = draw(st.sampled_from(["bin", "cbin", "meta", "meta"]))
         ops.append(o)
-    sl = draw(st.lists(st.tuples(st.integers(-ns - 3, ns + 3), st.integers(-ns - 3, ns + 3), st.sampled_from([1, 2, 3, 4, 5])),
-                       max_size=6))
+    sl = draw(st.lists(st.tuples(st.integers(-ns - 3, ns + 3), st.integers(-ns - 3, ns + 3),
+                                 st.sampled_from([1, 2, 3, 4, 5, -1, -2, -3, -4, -5])), max_size=6))
     return {"spec": spec, "chunk": chunk, "threads": draw(st.sampled_from([1, 1, 2])), "content_seed": draw(st.integers(0, 2 ** 31)),
             "content_mode": draw(st.sampled_from(["full", "smooth", "ramp"])), "ops": ops, "slices": [list(s) for s in sl],
             "start": draw(st.sampled_from(["bin", "bin", "cbin", "both"]))}
@@ -180,6 +180,10 @@ class World:
                     for e in range(b - 2, b + 3):
                         if 0 <= a < e <= self.ns:
                             sels.append(slice(a, e, 1 + (a + e) % 5))
+                            # the same range walked backwards with a stride (start e-1 down to a, exclusive stop a-1)
+                            sels.append(slice(e - 1, a - 1 if a > 0 else None, -(1 + (a + 2 * e) % 5)))
+            sels.append(slice(None, None, -2))
+            sels.append(slice(None, None, -3))
             sels.append(slice(None))
             sels.append(slice(max(0, self.ns - 3), self.ns + 5))
         crossed = False
